@@ -4,6 +4,17 @@ argv: <py_cases.json> {"spec_items", "idxmaps" {n: [packed index per row-major (
 vs the packed values from an independent schema-driven decode (tools/proto/refdec.py) expanded by the given index map; all
 comparisons on 64-bit patterns.  Also the factory arithmetic / reshape on synthetic streamer info."""
 import glob, hashlib, json, os, struct, sys
+
+# /venv carries a scikit-build-core editable install whose meta-path finder maps pybes3.* to /repo/src and wins over
+# PYTHONPATH; re-point it to the tree under test (PYBES3_REPO) so that a scratch worktree is really what gets imported.
+_repo = os.environ.get("PYBES3_REPO", "/repo").rstrip("/")
+for _f in sys.meta_path:
+    _m = getattr(_f, "known_source_files", None)
+    if isinstance(_m, dict):
+        for _k, _v in list(_m.items()):
+            if _v.startswith("/repo/src/"):
+                _m[_k] = _repo + _v[len("/repo"):]
+
 import numpy as np, awkward as ak, uproot
 import pybes3  # noqa: F401  (registers the interpretation + factories from the working tree)
 from pybes3.besio import root_io
@@ -13,6 +24,8 @@ sys.path.insert(0, os.path.join(os.path.dirname(os.path.dirname(os.path.abspath(
 import refdec
 
 inp = json.load(open(sys.argv[1]))
+assert os.path.realpath(root_io.__file__).startswith(os.path.realpath(_repo) + os.sep), \
+    f"pybes3 imported from {root_io.__file__}, not from the tree under test {_repo}"
 idxmaps = {int(k): v for k, v in inp["idxmaps"].items()}
 mism, tie, samples, hashes = [], [], [], set()
 n_members = n_objects = n_entries = n_factory = 0
